@@ -838,6 +838,22 @@ def _compile_module_file(template, text, filename, outputpath, module_writer):
     if isinstance(source, str):
         source = source.encode(lexer.encoding or "ascii")
 
+    def remove_stale_bytecode():
+        try:
+            os.remove(compat.util.cache_from_source(outputpath))
+        except (OSError, NotImplementedError):
+            pass
+
+    # the import system trusts a cached bytecode file whose recorded source
+    # mtime (whole seconds) and size match the module file; a module
+    # regenerated within the same second with the same length would
+    # otherwise be loaded from the bytecode of its predecessor.  It is
+    # removed before the new module appears, so that a writer that dies
+    # right after moving the file into place leaves no such pair behind,
+    # and once more afterwards, for a reader that cached the old module in
+    # between.
+    remove_stale_bytecode()
+
     if module_writer:
         module_writer(source, outputpath)
     else:
@@ -850,14 +866,7 @@ def _compile_module_file(template, text, filename, outputpath, module_writer):
         os.close(dest)
         shutil.move(name, outputpath)
 
-    # the import system trusts a cached bytecode file whose recorded source
-    # mtime (whole seconds) and size match the module file; a module
-    # regenerated within the same second with the same length would
-    # otherwise be loaded from the bytecode of its predecessor
-    try:
-        os.remove(compat.util.cache_from_source(outputpath))
-    except (OSError, NotImplementedError):
-        pass
+    remove_stale_bytecode()
 
 
 def _get_module_info_from_callable(callable_):
